@@ -1,5 +1,6 @@
 (* C05 — only live, server-issued access tokens are ever accepted as access tokens. *)
-From Verif Require Import Base Scope Types Prog Pop Token Authorize System Config Run Monitors Fresh FreshHandlers OneShot C17Proofs C05Proofs.
+From Verif Require Import Base Scope Types Prog Pop Token Authorize System Config Run Monitors Fresh FreshHandlers OneShot C17Proofs C05Proofs AtClaims C05ForgeProofs.
+From Verif.Corr Require Import C05Forge.
 Local Open Scope N_scope.
 
 (* For every reachable state of every history shorter than 2^34 operations (handles of never-issued
@@ -109,3 +110,84 @@ Theorem revoke_of_expired_access_token_refuted :
   end.
 Proof. vm_compute. split; reflexivity. Qed.
 Print Assumptions revoke_of_expired_access_token_refuted.
+
+(* ---- JWT access tokens: what ties the string to THIS server (Model/AtClaims.v: token.go validClaims guard
+   by guard - jwt.ParseSigned with the algorithms of the server's signature keys, canonical signature
+   encoding, key lookup by kid, use = sig, signature verification, claims.ValidateWithLeeway(Expected{Issuer:
+   ctx.Host}) - followed by the jti extraction of ExtractID / jwtTokenInfo; run on every string the suite
+   c05forge presents to the real provider, Corr/C05Forge.v) ---- *)
+Local Open Scope N_scope.
+
+(* For every configuration with a non-empty issuer and every JWT: validClaims yields a token id ONLY IF the
+   signature verifies under a signature key of the server (the key its JWKS lists under the kid of the
+   header), AND the iss claim is a single string equal to the configured issuer - not absent, not an
+   array containing it, not a string that differs by a trailing slash, letter case or scheme (those are other
+   numbers) - AND every time claim present is inside its window, AND the id is the jti of the token. *)
+Theorem at_claims_issuer_bound : forall (c : at_cfg) (j : jwt) (t : N),
+  ac_host c <> 0 ->
+  valid_claims c j = Some t ->
+  (exists k, In k (ac_keys c) /\ k_use k = UseSig /\ j_kid j = Some (k_kid k) /\
+             key_by_kid c (k_kid k) = Some k /\ j_signer j = Some (k_ident k)) /\
+  j_iss j = IssOne (ac_host c) /\
+  ((forall d, j_nbf j = Some d -> (d <= ac_leeway c)%Z) /\
+   (forall d, j_exp j = Some d -> (- ac_leeway c <= d)%Z) /\
+   (forall d, j_iat j = Some d -> (d <= ac_leeway c)%Z)) /\
+  j_jti j = Some t.
+Proof. exact at_claims_issuer_bound_l. Qed.
+Print Assumptions at_claims_issuer_bound.
+
+(* In the direction the suite checks: every forgery kind of c05forge (the inductive `forgery` mirrors
+   harness/suite_c05_forge.go c05fKinds: iss another string - foreign, trailing slash, letter case, scheme,
+   path suffix, empty, the other tenant's - / absent / an array, whatever it contains / not a string; exp,
+   nbf, iat outside the window; kid absent / unknown / naming a key that did not sign / naming the
+   encryption key; no verifying key - alg none, edited payload -; non-canonical signature; jti absent),
+   applied to ANY JWT record - whatever its other fields, a genuine live token included - is refused by
+   validClaims and hence by all four acceptors, whatever the grant storage holds. *)
+Theorem forged_issuer_refused : forall (c : at_cfg) (live : N -> bool) (f : forgery) (j : jwt),
+  ac_host c <> 0 -> forgery_side c f j ->
+  valid_claims c (apply_forgery f j) = None /\ at_accepts c live (apply_forgery f j) = false.
+Proof. exact forged_issuer_refused_l. Qed.
+Print Assumptions forged_issuer_refused.
+
+(* the remaining judged kinds keep every field valid and die on the grant storage: lifetime elapsed with exp
+   pushed into the future or removed, an unknown jti *)
+Theorem dead_jti_refused : forall (c : at_cfg) (live : N -> bool) (j : jwt),
+  (forall t, j_jti j = Some t -> live t = false) -> at_accepts c live j = false.
+Proof. exact dead_jti_not_accepted. Qed.
+Print Assumptions dead_jti_refused.
+
+(* The limit of the property, stated rather than hidden: validClaims cannot tell the server from another
+   holder of its signing key.  Claims signed by a signature key of the server under the configured issuer,
+   inside the time window, with a jti that is live (the same claims re-signed, the jti of another live
+   token, exp pushed on a live token) ARE accepted - by the model and, as the suite observes on every run
+   (kinds mint:*, listed in its meta.extra), by the unchanged code. *)
+Theorem at_claims_key_holder_mints : forall (c : at_cfg) (j : jwt) (k : skey) (t : N),
+  j_wf j = true -> In (j_alg j) (sig_algs c) -> j_sig_canon j = true ->
+  j_kid j = Some (k_kid k) -> key_by_kid c (k_kid k) = Some k -> k_use k = UseSig ->
+  j_signer j = Some (k_ident k) ->
+  j_iss j = IssOne (ac_host c) -> j_typed j = true ->
+  time_in_window (ac_leeway c) j ->
+  j_jti j = Some t ->
+  valid_claims c j = Some t.
+Proof. exact valid_claims_complete. Qed.
+Print Assumptions at_claims_key_holder_mints.
+
+(* what the model accepts never trips the monitor of the suite (mon_C05F decides the clauses of
+   at_claims_issuer_bound on the record alone) *)
+Theorem at_claims_accepted_passes_monitor_clauses : forall (c : at_cfg) (j : jwt) (t : N),
+  ac_host c <> 0 -> valid_claims c j = Some t ->
+  sig_okb c j = true /\ iss_okb c j = true /\ time_okb c j = true.
+Proof. exact accepted_passes_clauses. Qed.
+Print Assumptions at_claims_accepted_passes_monitor_clauses.
+
+(* the hypotheses are satisfiable: a genuine token of a two-key server (issuer 1, ES256 = 1, kid 7, key
+   material 3, issued 5 s ago for 600 s, jti 42) is accepted, and live => accepted by the acceptors; the same
+   claims under the issuer with a trailing slash (another string: 2), or as the array [1], are refused *)
+Definition ex_cfg : at_cfg := mkAtCfg 1 [mkSKey 8 4 5 UseEnc; mkSKey 7 3 1 UseSig] 0%Z.
+Definition ex_jwt : jwt := mkJwt true 1 (Some 7) (Some 3) true (IssOne 1) (Some 595%Z) None (Some (-5)%Z) true (Some 42).
+Example genuine_token_accepted :
+  valid_claims ex_cfg ex_jwt = Some 42 /\ at_accepts ex_cfg (fun t => N.eqb t 42) ex_jwt = true /\
+  valid_claims ex_cfg (apply_forgery (FIssOtherString 2) ex_jwt) = None /\
+  valid_claims ex_cfg (apply_forgery (FIssArray [1]) ex_jwt) = None /\
+  valid_claims ex_cfg (apply_forgery (FKidNamesEncKey 8) ex_jwt) = None.
+Proof. vm_compute. repeat split; reflexivity. Qed.
